@@ -355,6 +355,11 @@ def apply_bcs(simu, p, dirichlet, loads, dscale=1.0):
     coord = np.asarray(simu.mesh.coord, float)
     pool = _pool(simu, p)
     taken = np.zeros(simu.mesh.Nn, bool)
+    dof_n = simu.Get_dof_n(simu.problemType)
+    for lc in simu.Bc_Lagrange:
+        # a Dirichlet value on both coupled dofs duplicates the connection row (redundant constraints make the
+        # bordered matrix singular: a question for C04, not for the time scheme): keep joints free of Dirichlet
+        taken[np.asarray(lc.dofs, int) // dof_n] = True
     kinds = set()
     for bc in dirichlet:
         nodes = _select(coord, pool, bc["dir"], bc["side"], bc["frac"])
@@ -504,7 +509,7 @@ def check_weights(rec, simu, algo, prm, sig, seed):
     return w
 
 
-def check_step(rec, sysm, algo, prm, old, new, sig):
+def check_step(rec, sysm, algo, prm, old, new, sig, cond=0.0):
     """(i) update relations and (ii) residual on the free dofs"""
     K, C, M, F, free, B = sysm
     u_n, v_n, a_n = old
@@ -517,7 +522,7 @@ def check_step(rec, sysm, algo, prm, old, new, sig):
     if algo == "parabolic":
         rec.close(a1 - a_n, 1.0, 0.0, "parabolic_keeps_a", "a parabolic step changed the stored acceleration", **sig)
     st_ = cs.evaluation_states(algo, prm, u_n, v_n, a_n, u1, v1, a1)
-    r, s = cs.residual(K, C, M, F, st_)
+    r, s = cs.residual(K, C, M, F, st_, cs.state_scales(algo, prm, u_n, v_n, a_n, u1, st_))
     rf, sf = r[free], s[free]
     if B.shape[0]:
         Bf = B[:, free]
@@ -525,7 +530,11 @@ def check_step(rec, sysm, algo, prm, old, new, sig):
         rf = rf - Bf.T @ lam
     den = sf + 1e-3 * s.max()
     err = np.abs(rf) / den if s.max() > 0 else np.abs(rf)
-    rec.close(err, 1.0, TOL_RES, "equation_of_motion",
+    # the bordered (Lagrange multiplier) system is solved with the multiplier rows scaled by max|A|: its backward
+    # error follows the conditioning of the saddle-point matrix, the reduced (r1) solve is backward stable
+    tol = TOL_RES * (1 + cond / 1e5) if B.shape[0] else TOL_RES
+    rec.note_max("info:cond_lagrange" if B.shape[0] else "info:cond", cond)
+    rec.close(err / (tol / TOL_RES), 1.0, TOL_RES, "equation_of_motion",
               f"{algo} (dt,beta,gamma,alpha)={prm}: K u_t + C v_t + M a_t - F != 0 on the free dofs "
               f"(max |r|={np.abs(rf).max() if rf.size else 0:.3e}, scale {s.max():.3e})", **sig)
 
@@ -573,11 +582,11 @@ def check_one_step(case, rec):
     u_n, v_n, a_n = draw_state(case["state"], N)
     simu._Set_solutions(pt, u_n.copy(), v_n.copy(), a_n.copy())
     w = check_weights(rec, simu, algo, prm, sig, case["wseed"])
-    cond_guard(K, C, M, free, B, w)
+    cond = cond_guard(K, C, M, free, B, w)
     with _quiet():
         u1 = np.asarray(simu.Solve(), float)
     new = (u1, np.asarray(simu._Get_v_n(pt), float), np.asarray(simu._Get_a_n(pt), float))
-    check_step(rec, sysm, algo, prm, (u_n, v_n, a_n), new, sig)
+    check_step(rec, sysm, algo, prm, (u_n, v_n, a_n), new, sig, cond)
     rec.label("algo:" + algo, "problem:" + p["kind"], _bucket(sch), "dirichlet:" + ("+".join(sorted(kinds)) or "none"),
               "load" if _mx(F) > 0 else "no_load", "damping" if _mx(C) > 0 and p["kind"] != "thermal" else "no_damping")
     if sch.get("defaults"):
@@ -661,11 +670,11 @@ def check_history(case, rec):
             if _mx(*old) > 1e60:
                 break  # an unstable parameter choice has blown the state up; relative checks stay valid but stop here
             w = check_weights(rec, simu, algo, prm, sig, case["wseed"] + k)
-            cond_guard(K, C, M, free, B, w)
+            cond = cond_guard(K, C, M, free, B, w)
             with _quiet():
                 u1 = np.asarray(simu.Solve(), float)
             new = (u1, np.asarray(simu._Get_v_n(pt), float), np.asarray(simu._Get_a_n(pt), float))
-            check_step(rec, sysm, algo, prm, old, new, sig)
+            check_step(rec, sysm, algo, prm, old, new, sig, cond)
             nsteps += 1
             algos_seen.append(algo)
             nt = nt or _nontrivial(algo, old, F, C if p["kind"] != "thermal" else 0 * C, kinds, free)
@@ -724,7 +733,7 @@ def check_newton(case, rec):
     scale = _mx(sols[0][0], old[0], prm[0] * old[1], prm[0] ** 2 * old[2]) or 1.0
     rec.close(sols[1][0] - sols[0][0], scale, TOL_SOL * (1 + cond / 1e6), "newton_equals_direct",
               f"{algo} {p['kind']}: u_(n+1) of the incremental form differs from the direct solve", **sig)
-    check_step(rec, sysm, algo, prm, old, sols[1], sig)
+    check_step(rec, sysm, algo, prm, old, sols[1], sig, cond)
     rec.label("algo:" + algo, "problem:" + p["kind"], _bucket(sch), f"newton_iterations:{nit}")
     rec.nontrivial(_nontrivial(algo, old, F, C if p["kind"] != "thermal" else 0 * C, kinds, free))
 
@@ -877,6 +886,9 @@ def check_energy(case, rec):
     E0 = cs.energy(K, M, u0, v0)
     if not E0 > 0:
         raise Inconclusive("zero initial energy")
+    aK, aM = np.abs(K), np.abs(M)
+    # natural magnitude of the two quadratic forms (E itself may be the small difference of large products)
+    S = 0.5 * float(np.abs(u0) @ aK @ np.abs(u0)) + 0.5 * float(np.abs(v0) @ aM @ np.abs(v0))
     tol = TOL_E * (1 + cond / 1e4)
     E_prev, worst, worst_up = E0, 0.0, 0.0
     n1 = Ksp.shape[0]
@@ -892,20 +904,21 @@ def check_energy(case, rec):
             u = np.asarray(simu.Solve(), float)
         v = np.asarray(simu._Get_v_n(pt), float)
         E = cs.energy(K, M, u, v)
+        S = max(S, 0.5 * float(np.abs(u) @ aK @ np.abs(u)) + 0.5 * float(np.abs(v) @ aM @ np.abs(v)))
         if k in (0, case["nsteps"] - 1):
             # the library's own energy functional agrees with the harness one
             pad = np.zeros(n1 - N)
             Elib = float(simu.Calc_Energy(Ksp, np.concatenate([u, pad]))) + float(simu.Calc_Energy(Msp, np.concatenate([v, pad])))
-            rec.close(Elib - E, abs(E) + E0, 1e-11, "calc_energy", f"Calc_Energy(K,u)+Calc_Energy(M,v)={Elib!r} vs harness {E!r}", **sig)
+            rec.close(Elib - E, S, TOL_ID, "calc_energy", f"Calc_Energy(K,u)+Calc_Energy(M,v)={Elib!r} vs harness {E!r}", **sig)
         if algo == "euler_implicit":
-            worst_up = max(worst_up, (E - E_prev) / E0)
-            if not rec.require(E - E_prev <= tol * E0, "energy_non_increasing",
+            worst_up = max(worst_up, (E - E_prev) / S)
+            if not rec.require(E - E_prev <= tol * S, "energy_non_increasing",
                                f"backward Euler increased the energy at step {k}: {E_prev!r} -> {E!r} (E0={E0!r}, dt={dt})", **sig):
                 break
         else:
-            worst = max(worst, abs(E - E0) / E0)
-            if not rec.require(abs(E - E0) <= tol * E0, "energy_conserved",
-                               f"{algo}: energy drifted at step {k}: E0={E0!r}, E={E!r}, rel {abs(E - E0) / E0:.3e} > {tol:.1e} "
+            worst = max(worst, abs(E - E0) / S)
+            if not rec.require(abs(E - E0) <= tol * S, "energy_conserved",
+                               f"{algo}: energy drifted at step {k}: E0={E0!r}, E={E!r}, rel {abs(E - E0) / E0:.3e}, vs scale {abs(E - E0) / S:.3e} > {tol:.1e} "
                                f"(dts={case['dts']}, init={case['init']})", **sig):
                 break
         E_prev = E
@@ -915,6 +928,7 @@ def check_energy(case, rec):
         rec.note_max("honest_err:energy_conserved", worst / (1 + cond / 1e4))
     rec.label("algo:" + algo, "problem:" + p["kind"], "init:" + case["init"], f"steps:{case['nsteps']}",
               "dt_varies" if len(set(case["dts"])) > 1 else "dt_fixed", "constrained" if free.size < N else "free_free")
+    rec.note_max("info:cond", cond)
     rec.nontrivial(True)
 
 
